@@ -492,13 +492,17 @@ func (d *Data) storeBlocks(ctx *datastore.VersionedCtx, r io.ReadCloser, scale u
 		return err
 	}
 	var numBlocks int
+	// An error that ends the stream does not end the bookkeeping: the blocks stored before it are
+	// indexed and down-sampled like those of a complete request, and the error is returned after that.
+	var streamErr error
 	for {
 		block, compressed, bx, by, bz, err := readStreamedBlock(r, scale)
 		if err == io.EOF {
 			break
 		}
 		if err != nil {
-			return err
+			streamErr = err
+			break
 		}
 		bcoord := dvid.ChunkPoint3d{bx, by, bz}.ToIZYXString()
 		tk := NewBlockTKeyByCoord(scale, bcoord)
@@ -510,7 +514,8 @@ func (d *Data) storeBlocks(ctx *datastore.VersionedCtx, r io.ReadCloser, scale u
 		}
 		serialization, err := dvid.SerializePrecompressedData(compressed, d.Compression(), d.Checksum())
 		if err != nil {
-			return fmt.Errorf("can't serialize received block %s data: %v", bcoord, err)
+			streamErr = fmt.Errorf("can't serialize received block %s data: %v", bcoord, err)
+			break
 		}
 		putWG.Add(1)
 		if putbuffer != nil {
@@ -519,7 +524,9 @@ func (d *Data) storeBlocks(ctx *datastore.VersionedCtx, r io.ReadCloser, scale u
 			putbuffer.PutCallback(ctx, tk, serialization, ready)
 		} else {
 			if err := store.Put(ctx, tk, serialization); err != nil {
-				return fmt.Errorf("Unable to PUT voxel data for block %s: %v", bcoord, err)
+				putWG.Done()
+				streamErr = fmt.Errorf("Unable to PUT voxel data for block %s: %v", bcoord, err)
+				break
 			}
 			go callback(bcoord, block, nil)
 		}
@@ -546,6 +553,9 @@ func (d *Data) storeBlocks(ctx *datastore.VersionedCtx, r io.ReadCloser, scale u
 		if err := downresMut.Execute(); err != nil {
 			return err
 		}
+	}
+	if streamErr != nil {
+		return streamErr
 	}
 	timedLog.Infof("Received and stored %d blocks for labelmap %q", numBlocks, d.DataName())
 	return nil
